@@ -1,10 +1,31 @@
 //! Independent container walkers (DESIGN §4.1, §4.2). No SDK parsing code is used: every walker is
 //! written from the format's specification and only knows *where* C2PA puts the manifest store
-//! (JPEG APP11/JUMBF, PNG `caBX`, GIF `C2PA_GIF` application extension, RIFF `C2PA` chunk, TIFF tag
-//! 0xCD41, SVG `metadata/c2pa:manifest`, ID3v2 `GEOB` application/c2pa for MP3 **and FLAC** (that is
-//! where this SDK writes it), JPEG XL `jumb` box, BMFF C2PA `uuid` box, sidecar = whole file).
+//! (JPEG APP11/JUMBF, PNG `caBX`, GIF `C2PA_GIF` application extension before the first image, RIFF `C2PA`
+//! chunk of the first RIFF chunk, TIFF tag 0xCD41 of the last (else first) page IFD, SVG
+//! `svg/metadata/c2pa:manifest` base64 text, ID3v2 `GEOB` frame with mime application/c2pa for MP3 **and
+//! FLAC** (that is where this SDK writes it — not a FLAC APPLICATION block), JPEG XL `jumb` box, BMFF C2PA
+//! `uuid` box with purpose `manifest`, sidecar = whole file).
 //!
-//! All functions take a kind (`vh::assets::KINDS`), a mime type or a file extension.
+//! All functions take a kind (`vh::assets::KINDS`), a mime type or a file extension (`family`).
+//!
+//! * `walk` — top-level units covering the file in order (gaps are reported as `gap` / `trailing` units);
+//!   JPEG: segments + `scan` (entropy data incl. RSTn) ; PNG chunks; GIF blocks (`image` = descriptor + LCT +
+//!   data); RIFF: `RIFF:<form>` header then the children of the first RIFF chunk, then further RIFF/AVIX
+//!   chunks; TIFF: header, IFDs, out-of-line values, strips/tiles sorted by offset; SVG: prolog tokens,
+//!   `svg-open`, every child subtree of the root, `svg-close`; MP3/FLAC: ID3 header, frames, padding, then
+//!   `audio` (+`ID3v1`) or `fLaC` + metadata blocks + `frames`; JXL/BMFF: top-level boxes.
+//! * `manifest_spans` — byte spans of the manifest container(s) (SVG: the `c2pa:manifest` element; TIFF: the
+//!   tag's data; BMFF: every C2PA uuid box incl. merkle / update boxes).
+//! * `extract_store` — the store bytes as the reader should see them (JPEG segments reassembled, GIF
+//!   sub-blocks joined, SVG base64 decoded, JXL = the whole jumb box; BMFF original+update pairs: the
+//!   `original` store, the SDK merges the two).
+//! * `media_content` — C09 oracle, strict bytes; `media_content_normalised` — same with ID3v2 string frames
+//!   brought to UTF-8 (the SDK rewrites ID3 tags as v2.4/UTF-8). Deliberately *not* media content: GIF
+//!   version digits (87a→89a is required for extensions), SVG BOM, the `xmlns:c2pa` attribute of the root
+//!   element, an empty `<metadata></metadata>`, ID3 header/padding, RIFF/box size fields, TIFF offsets
+//!   (replaced by the bytes they address), BMFF stco/co64/iloc offset fields (zeroed, plus one entry per
+//!   table entry with the dereferenced bytes: whole chunk via stsc+stsz, iloc extent, else 16 bytes).
+//! * `bmff_offset_refs` — the BMFF offset table entries themselves; `sniff` — magic-byte table.
 
 use base64::Engine;
 
@@ -38,7 +59,7 @@ pub fn family(k: &str) -> Option<&'static str> {
         "gif" | "image/gif" => "gif",
         "wav" | "webp" | "avi" | "riff" | "audio/wav" | "audio/wave" | "audio/x-wav" | "audio/vnd.wave" | "image/webp"
         | "video/avi" | "video/msvideo" | "video/x-msvideo" | "application/x-troff-msvideo" => "riff",
-        "tiff" | "tif" | "dng" | "image/tiff" | "image/dng" | "image/x-adobe-dng" => "tiff",
+        "tiff" | "tif" | "dng" | "arw" | "nef" | "image/tiff" | "image/dng" | "image/x-adobe-dng" | "image/x-sony-arw" | "image/x-nikon-nef" => "tiff",
         "svg" | "image/svg+xml" | "application/svg+xml" => "svg",
         "mp3" | "audio/mpeg" | "audio/mp3" | "audio/x-mp3" | "audio/mpeg3" => "mp3",
         "flac" | "audio/flac" => "flac",
@@ -209,6 +230,14 @@ fn fourcc(b: &[u8]) -> String {
     b.iter().map(|c| if (0x20..0x7F).contains(c) { *c as char } else { '?' }).collect()
 }
 
+/// `d` starts at a `jumd` box (length, "jumd", 16-byte type, toggles, label…): true when the box is
+/// labelled "c2pa". A manifest store superbox is recognised by the `c2pa` type prefix of its description
+/// UUID *or* by this label, so that a store with a slightly damaged description is still located
+/// (judging it is the reader's business, locating it the walker's).
+fn jumd_label_is_c2pa(d: &[u8]) -> bool {
+    d.len() >= 30 && &d[4..8] == b"jumd" && d[24] & 0x03 == 0x03 && &d[25..30] == b"c2pa\0"
+}
+
 // ------------------------------------------------------------------------------------------------
 // JPEG
 // ------------------------------------------------------------------------------------------------
@@ -315,7 +344,7 @@ fn walk_jpeg(b: &[u8]) -> Result<Walked, String> {
         if c2pa_en.contains(&en) {
             u.is_manifest = true;
             parts.push((i, z));
-        } else if z == 1 && c.len() >= 40 && &c[20..24] == b"jumd" && c[24..40] == C2PA_STORE_UUID {
+        } else if z == 1 && c.len() >= 40 && &c[20..24] == b"jumd" && (c[24..28] == C2PA_STORE_UUID[..4] || jumd_label_is_c2pa(&c[16..])) {
             c2pa_en.push(en);
             u.is_manifest = true;
             parts.push((i, z));
@@ -1270,7 +1299,7 @@ fn walk_jxl(b: &[u8]) -> Result<Walked, String> {
     for x in &boxes {
         let mut u = unit(fourcc(&x.typ), x.start, x.end - x.start, x.start + x.hdr, x.end - x.start - x.hdr);
         let pl = &b[x.start + x.hdr..x.end];
-        if &x.typ == b"jumb" && pl.len() >= 25 && &pl[4..8] == b"jumd" && pl[8..24] == C2PA_STORE_UUID {
+        if &x.typ == b"jumb" && pl.len() >= 25 && &pl[4..8] == b"jumd" && (pl[8..12] == C2PA_STORE_UUID[..4] || jumd_label_is_c2pa(pl)) {
             if store.is_some() {
                 return Err("jxl: more than one C2PA jumb box".into());
             }
